@@ -78,7 +78,7 @@ fn mat_viewport_corners_exact() {
 
 // @ob props=C08 tier=quick kind=P cfg=core-std timeout=600
 // @fn perspective
-// @allow_panic perspective
+// @allow_panic ^math::mat::perspective:
 // @clause perspective() rejects non-positive focal ratio, aspect ratio or near plane, NaN parameters, and an empty or inverted near..far range: whenever it returns, all of those are positive and near < far
 #[cfg(not(verif_skip_mat_perspective_rejects_bad_parameters))]
 #[kani::proof]
